@@ -19,6 +19,10 @@ def run(ck):
         for row in genlex.gen_inputs(3, alpha):
             fh.write(json.dumps(row) + "\n")
             n += 1
+        # every class (incl. Unicode blanks/digits/BOM/4-byte runes/controls) next to every other one
+        for row in genlex.gen_inputs(2 if q else 3, genlex.UNI + [b"a", b"1", b" ", b"\n", b'"', b"=", b"#", b"(", b"{", b"`"]):
+            fh.write(json.dumps(row) + "\n")
+            n += 1
         # longer inputs over a small alphabet of the interesting classes
         small = [b'"', b"'", b"\\", b"\n", b"a", b"0", b"x", b".", b"`", b"#", b" ", b"("]
         for row in genlex.gen_inputs(4 if q else 5, small):
@@ -38,11 +42,12 @@ def run(ck):
                      timeout=3000)
     absorb(ck, r, "parse-total")
     ck.cov["rule"] = ("(a) every byte string up to length %d over %d byte classes (letters, digits, quotes, backslash, newline, brackets, "
-                      "operators, a 2-byte rune, an invalid byte, NUL) and up to length %d over the 12 most interesting ones is lexed by the "
+                      "operators, a 2-byte rune, an invalid byte, NUL), up to length %d over Unicode blanks / digit / BOM / U+FFFD / 3- and 4-byte runes / "
+                      "ASCII controls / truncated UTF-8 mixed with 10 ASCII classes, and up to length %d over the 12 most interesting ones is lexed by the "
                       "real lexer and the item stream is validated by TLC against TraceLexer (cover, order, no overlap, only blanks "
                       "skipped, lexical class, bounded length, ends in EOF or one positioned ERROR). (b) the same texts, random token "
                       "sequences, random bytes, malformed numbers, unterminated forms, deep nesting and valid programs with one token "
                       "deleted/duplicated/replaced go through ParsePipeline: tree xor error, error names the script with a position "
                       "inside the source whose line/column match the offset, nothing crashed internally, no hang. distinct = distinct texts."
-                      % (3, len(alpha), 4 if q else 5))
+                      % (3, len(alpha), 2 if q else 3, 4 if q else 5))
     ck.assumptions += ["acceptance verdicts of arbitrary garbage are not demanded, only the tree-xor-positioned-error disjunction"]
